@@ -577,6 +577,12 @@ func runC09(c *Ctx) *Replay {
 			if c.R.Bool() {
 				ms.Values[0], ms.Values[1] = ms.Values[1], ms.Values[0]
 			}
+			if c.R.Chance(1, 3) && sb.Schema.HasUnionBelow(t) {
+				// the peer is one version ahead: every union below the top carries a member
+				// this schema does not know (an empty one), which decoders step over
+				ms.Extra = map[string]string{"newer_members": "1"}
+				c.Count("must_agree_newer_union_members", 1)
+			}
 			viol := execMustAgree(c.N, &ms)
 			if ms.Extra["skipped"] != "" {
 				continue
@@ -670,7 +676,11 @@ func execMustAgree(n *Node, sc *Scenario) *Violation {
 	kind := recordKind(b.Schema, sc.Type)
 	var encs [][]byte
 	for i := 0; i < 2; i++ {
-		encs = append(encs, refcodec.Encode(b.Schema, tt, val.Normalise(b.Schema, tt, sc.Values[i])))
+		nv := val.Normalise(b.Schema, tt, sc.Values[i])
+		if sc.Extra["newer_members"] == "1" {
+			nv = foreignMembers(b.Schema, tt, nv, true)
+		}
+		encs = append(encs, refcodec.Encode(b.Schema, tt, nv))
 	}
 	checked, must := t.New(), t.New()
 	// every decode gets a buffer of its own that stays alive and untouched (builds that
@@ -703,6 +713,80 @@ func execMustAgree(n *Node, sc *Scenario) *Violation {
 			map[string]string{"record_kind": kind, "path": pathShape(d)})
 	}
 	return nil
+}
+
+// foreignMembers replaces every union of v below the top level by a member with a
+// discriminator the schema does not have and an empty body.
+func foreignMembers(s *schema.Schema, t schema.Type, v val.Value, top bool) val.Value {
+	switch {
+	case t.Array != nil:
+		out := v
+		out.Elems = make([]val.Value, len(v.Elems))
+		for i, e := range v.Elems {
+			out.Elems[i] = foreignMembers(s, *t.Array, e, false)
+		}
+		return out
+	case t.MapV != nil:
+		out := v
+		out.Vals = make([]val.Value, len(v.Vals))
+		for i, e := range v.Vals {
+			out.Vals[i] = foreignMembers(s, *t.MapV, e, false)
+		}
+		return out
+	case t.Prim != "":
+		return v
+	}
+	d := s.Lookup(t.Named)
+	if d == nil {
+		return v
+	}
+	switch d.Kind {
+	case schema.KStruct:
+		out := v
+		out.Elems = make([]val.Value, len(v.Elems))
+		for i, e := range v.Elems {
+			if i < len(d.Fields) {
+				e = foreignMembers(s, d.Fields[i].Type, e, false)
+			}
+			out.Elems[i] = e
+		}
+		return out
+	case schema.KMessage:
+		out := v
+		out.Fields = make([]val.MsgField, len(v.Fields))
+		for i, f := range v.Fields {
+			out.Fields[i] = f
+			for _, fd := range d.Fields {
+				if fd.Index == f.Index {
+					out.Fields[i].V = foreignMembers(s, fd.Type, f.V, false)
+				}
+			}
+		}
+		return out
+	case schema.KUnion:
+		if !top {
+			used := map[uint8]bool{}
+			for _, b := range d.Branches {
+				used[b.Disc] = true
+			}
+			disc := uint8(255)
+			for used[disc] && disc > 1 {
+				disc--
+			}
+			return val.Value{Disc: disc, Body: &val.Value{}}
+		}
+		if v.Body != nil {
+			for _, b := range d.Branches {
+				if b.Disc == v.Disc {
+					body := foreignMembers(s, schema.Type{Named: b.Def.Name}, *v.Body, false)
+					out := v
+					out.Body = &body
+					return out
+				}
+			}
+		}
+	}
+	return v
 }
 
 func execOptBytes(n *Node, sc *Scenario) *Violation {
